@@ -167,3 +167,36 @@ class Timer:
 
     def s(self):
         return round(time.time() - self.t0, 2)
+
+
+def diff_cases(cases, nontrivial=None, max_report=20):
+    """cases: list of (request_line, expected_canon, description).  Runs the model and
+    returns a result dict with the disagreements."""
+    got = run_model([c[0] for c in cases])
+    bad = []
+    nt = set()
+    for (rq, e, d), g in zip(cases, got):
+        if e != g:
+            if len(bad) < max_report:
+                bad.append({'case': d, 'request': rq, 'python': e, 'model': g})
+            else:
+                bad.append(None)
+        if nontrivial is None or nontrivial(e):
+            nt.add(rq)
+    nbad = len(bad)
+    bad = [b for b in bad if b is not None]
+    return {'evaluations': len(cases), 'distinct_nontrivial': len(nt), 'n_disagreements': nbad,
+            'disagreements': bad, 'samples': [c[2] for c in cases[:3]]}
+
+
+def call(f, *a, **k):
+    """Run f and return its value or the exception (canonicalised by class name)."""
+    import warnings
+    with warnings.catch_warnings():
+        warnings.simplefilter('ignore')
+        try:
+            return f(*a, **k)
+        except RecursionError:
+            raise
+        except Exception as e:  # noqa
+            return Exn(type(e).__name__)
